@@ -21,6 +21,15 @@ CLAIMED = {
                 note='Trusted: z3, AST rewrite, the recursive reference evaluator, floats-as-reals for \\ifdim. Operands are registers (normal form: no literal termination issue). '
                      'Mode tests and \\ifcat/\\if/\\ifcsname are outside the generated heads.',
                 ref='DESIGN.md section 5 C03'),
+    'C05': dict(level='model_checking',
+                text='Bounded exhaustive over literal and invocation skeletons written as source characters: integer literals (sign runs, decimal/octal/hex/character code, '
+                     'digit characters drawn from the digit range plus its neighbours so early termination is a feasible branch, count registers with unbounded values), '
+                     'dimension literals (5-6 decimal forms, two symbolic unit letters in either case covering all 11 units, true, register multiples), glue with plus/minus and '
+                     'the three fil orders, and generated signatures (star, [], (), <>, mandatory; untyped/str/int/dimen/list/dict) with symbolic content characters that may be '
+                     'the delimiters themselves: value = TeX\'s value, every declared name bound as written, exactly the literal/invocation consumed, parameter-enable level restored.',
+                note='Trusted: z3, AST rewrite, the reference number grammar and reference binder; dimensions compared with the exact rational within (1+unit/pt) sp, floats as reals. '
+                     'Signatures beyond 3 arguments, mu units, url/label/ref/cs types are outside the claim.',
+                ref='DESIGN.md section 5 C05'),
     'C19': dict(level='model_checking',
                 text='Bounded exhaustive over all expression trees of depth <= 2 (thorough: depth 3 with <= 5 atoms, depth-4 chains) written as LaTeX source: for every '
                      'valuation of the atoms (booleans, symbolic digits and relation characters, symbolic \\equal letters) exactly the branch denoted by the expression '
